@@ -121,20 +121,28 @@ void ep_norm_sim(ep_t *r, const ep_t *t, int n) {
 			fp_null(a[i]);
 			fp_new(a[i]);
 			fp_copy(a[i], t[i]->z);
+			if (ep_is_infty(t[i])) {
+				/* Keep the point at infinity out of the inversion. */
+				fp_set_dig(a[i], 1);
+			}
 		}
 
 		fp_inv_sim(a, (const fp_t *)a, n);
 
 		for (i = 0; i < n; i++) {
+			if (ep_is_infty(t[i])) {
+				ep_set_infty(r[i]);
+				continue;
+			}
 			fp_copy(r[i]->x, t[i]->x);
 			fp_copy(r[i]->y, t[i]->y);
-			if (!ep_is_infty(t[i])) {
-				fp_copy(r[i]->z, a[i]);
-			}
+			fp_copy(r[i]->z, a[i]);
 		}
 #if EP_ADD == PROJC || EP_ADD == JACOB || !defined(STRIP)
 		for (i = 0; i < n; i++) {
-			ep_norm_imp(r[i], r[i], 1);
+			if (!ep_is_infty(r[i])) {
+				ep_norm_imp(r[i], r[i], 1);
+			}
 		}
 #endif /* EP_ADD == PROJC */
 	}
